@@ -18,6 +18,7 @@ ANNOTATOR_POOLS = [
 
 LABELS_ABC = ["A", "B", "C", "D"]
 LABELS_WORDS = ["Noun", "Verb", "Adj", "Adv", "Det", "Prep", "verb", "noun phrase"]
+LABELS_REPETITIVE = ["ab", "aab", "abab", "NP", "NP-NP", "10", "100", "1010", "aa", "a"]      # one label is another with a block repeated / deleted
 LABELS_NUM = ["1", "2", "3", "5", "10", "20", "9", "100", "0.5"]
 
 DELTAS = [1.0, 1.0, 1.0, 0.5, 2.0, 1.5, 0.25, 3.0]
@@ -52,7 +53,8 @@ def cat_specs(draw, kinds=("abs", "precomputed", "lev", "ordinal", "numerical"),
         cats = sorted(cats)
         return {"kind": "precomputed", "cats": cats, "matrix": _sym_matrix(draw, len(cats)), "delta": d}
     if kind == "lev":
-        labels = draw(st.lists(st.sampled_from(LABELS_WORDS + LABELS_ABC), min_size=1, max_size=max_cats, unique=True))
+        pool = LABELS_REPETITIVE if draw(st.integers(0, 2)) == 0 else LABELS_WORDS + LABELS_ABC
+        labels = draw(st.lists(st.sampled_from(pool), min_size=1, max_size=max_cats, unique=True))
         return {"kind": "lev", "labels": labels, "delta": d}
     if kind == "ordinal":
         labels = draw(st.lists(st.sampled_from(LABELS_WORDS + LABELS_ABC), min_size=1, max_size=max_cats, unique=True))
